@@ -284,7 +284,14 @@ fn check_interrupt_points(t: &mut Tape, ctx: &Ctx) -> Outcome {
     }
     let mut nontrivial = 0;
     let mut tried = 0;
-    let inspect = if t.chance(1, 2) { Some("PRINT A;B%;A$;I") } else { None };
+    // looking at variables between the break and CONT, including a mistyped line that is refused
+    // at compile time and therefore executes nothing
+    let inspect = match t.below(6) {
+        0 | 1 => Some("PRINT A;B%;A$;I"),
+        2 => Some("PRINT A+"),
+        3 => Some("PRINT A;:GOTO 64999"),
+        _ => None,
+    };
     for k in ks {
         match interrupted(&texts, &g.replies, &probes, &base, k, None, inspect) {
             Err((c, d)) => return Outcome::fail(&c, d, case),
@@ -491,7 +498,7 @@ fn check_inserted_stop(t: &mut Tape, ctx: &Ctx) -> Outcome {
                     stops += 1;
                     cmd = "CONT".into();
                     if t.chance(1, 3) {
-                        term.line("PRINT A;B%;A$", &mut o);
+                        term.line(*t.pick(&["PRINT A;B%;A$", "PRINT A;B%;A$", "PRINT A+", "PRINT B%:GOTO 64999"]), &mut o);
                         term.take();
                     }
                     continue;
@@ -511,7 +518,7 @@ fn check_inserted_stop(t: &mut Tape, ctx: &Ctx) -> Outcome {
                     stops += 1;
                     cmd = "CONT".into();
                     if t.chance(1, 3) {
-                        term.line("PRINT A;B%;A$", &mut o);
+                        term.line(*t.pick(&["PRINT A;B%;A$", "PRINT A;B%;A$", "PRINT A+", "PRINT B%:GOTO 64999"]), &mut o);
                         term.take();
                     }
                     continue;
